@@ -257,16 +257,7 @@ def multiyear_stream(ctx, phys):
         snap = o["snap"]
         raw = H.multiyear_profile(a["seed"], years)
         ms = H.month_sums(raw, years, n)
-        if H.has_leap(years):
-            ok, fails = classify_arrays(snap["load"], snap["hour"], ms, H.month_table(snap["monthly"]), 1, n, year=years)
-            if fails:
-                tot = sum(Fraction(x) * (Fraction(h1) - Fraction(h0)) for x, h0, h1 in zip(snap["load"][1:], snap["hour"][:-1], snap["hour"][1:]))
-                want = sum(m["net"] for m in ms)
-                ctx.finding("multi-year-leap-calendar", f"{label}: {fails[0][0]} ({fails[0][4] if fails[0][1] is None else 'month ' + str(fails[0][1])}); the axis ends at hour "
-                            f"{snap['hour'][-1]} (calendar: {H.oracle_month_end(n, years)}), the sequence integrates to {float(tot):.3f} kWh, the input's net load is {float(want):.3f} kWh", replay)
-            else:
-                ctx.count("multi-year:leap-calendar-conserved", ok)
-            continue
+        # (since the F33 repair, fbb6485, lists with a leap year are judged like any other: a failure there is an ordinary finding)
         ok, _ = _object_predicates(ctx, label, snap, ms, 1, n, years, replay, "multi-year-")
         ctx.count("multi-year:months-conserved", ok)
 
